@@ -110,6 +110,15 @@ bool Stats::startSocket() {
   }
   ::memset(&serv_addr_, '\0', sizeof(serv_addr_));
   serv_addr_.sun_family = AF_UNIX;
+  // sun_path is a fixed-size array inside this object; strcpy of a longer
+  // path would overwrite the members that follow it
+  if (stats_socket_path_.size() >= sizeof(serv_addr_.sun_path)) {
+    OLOG << "Stats socket path is too long (" << stats_socket_path_.size()
+         << " bytes, limit " << sizeof(serv_addr_.sun_path) - 1
+         << "): " << stats_socket_path_;
+    ::close(sockfd_);
+    return false;
+  }
   ::strcpy(serv_addr_.sun_path, stats_socket_path_.c_str());
   if (::unlink(serv_addr_.sun_path) < 0 && errno != ENOENT) {
     OLOG << "Pre-unlinking of socket path failed. " << serv_addr_.sun_path
